@@ -697,7 +697,7 @@ func genXML(t *rapid.T, depth int) string {
 }
 
 func TestXML(t *testing.T) {
-	xpaths := []string{"/a", "/a/b", "//b", "//b/@id", "/a/@id", "//item[1]", "/a/text()", "//c/text()", "//*[@id='1']", "/nosuch", "//b[2]/c", "(", "", "/a[", "count(//b)", "//b | //c", "/a/b/c/item"}
+	xpaths := sgen.XPaths
 	rk.Check(t, "xml", 4, evid.Scale(1500, 12000), func(t *rapid.T) {
 		doc := genXML(t, 3)
 		switch rapid.IntRange(0, 9).Draw(t, "breakdoc") {
